@@ -13,3 +13,5 @@ mod c01;
 mod c08;
 #[cfg(kani)]
 mod c07;
+#[cfg(kani)]
+mod c03;
